@@ -673,8 +673,30 @@ func genGraph(r *lib.Rng) *gSpec {
 		}
 		return sInput{Kind: "file", File: fmt.Sprintf("f%d.txt", r.Intn(4))}
 	}
+	// every second graph: a dependency that PROVIDES 2-4 languages which the top target REQUIRES (all of them, in some order) and
+	// names in its srcs, so that the order in which ProvideFor returns the provided labels reaches the source hash
+	var multi *nSpec
 	for i := 0; i < n; i++ {
 		isTop := i == n-1
+		if isTop && r.Bool() {
+			cands := []rh.Label{}
+			for _, l := range labels {
+				if !provider[l] {
+					cands = append(cands, l)
+				}
+			}
+			if len(cands) > 0 {
+				mp := nSpec{Label: rh.Label{Pkg: lib.Pick(r, srcPkgs), Name: "prov"}, Outs: []string{"prov.o1"}}
+				for _, lang := range []string{"la", "lb", "lc", "ld"}[:r.Range(2, 4)] {
+					mp.Provides = append(mp.Provides, rh.LGroup{Key: lang, Vals: []rh.Label{lib.Pick(r, cands)}})
+				}
+				lib.Shuffle(r, mp.Provides)
+				provider[mp.Label] = true
+				labels = append(labels, mp.Label)
+				gs.Nodes = append(gs.Nodes, mp)
+				multi = &mp
+			}
+		}
 		ns := nSpec{Label: rh.Label{Pkg: lib.Pick(r, srcPkgs), Name: fmt.Sprintf("n%d", i)}}
 		ns.Outs = []string{ns.Label.Name + ".o1"}
 		if r.Chance(1, 3) {
@@ -765,13 +787,21 @@ func genGraph(r *lib.Rng) *gSpec {
 				}
 			}
 		}
+		if isTop && multi != nil {
+			ns.Srcs = append(ns.Srcs, sInput{Kind: "label", L: multi.Label})
+			ns.Requires = []string{}
+			for _, g := range multi.Provides {
+				ns.Requires = append(ns.Requires, g.Key)
+			}
+			lib.Shuffle(r, ns.Requires)
+		}
 		if ns.NamedOut != "" {
 			hasNamedOut[ns.Label] = true
 		}
 		labels = append(labels, ns.Label)
 		gs.Nodes = append(gs.Nodes, ns)
 	}
-	gs.Top = labels[n-1]
+	gs.Top = labels[len(labels)-1]
 	return gs
 }
 
